@@ -404,7 +404,21 @@ def _timetrack(task, out):
     from ..sxreal import SymReal, nra_check
     n = task['n']
 
+    WITNESSES = [(0.0, 0.1), (1.0, 0.1), (0.25, 0.001), (-3.5, 2.0), (0.0, 0.0), (1e9, 1e-6), (0.1, 0.7)]
+
     def fn(ctx):
+        # concrete float witnesses (length and end points): np.linspace's own rounding is outside the real-valued claim
+        import numpy as np
+        for (o, i) in WITNESSES:
+            chc = TdmsChannel(ObjectPath('g', 'c'), None, None, n, {'wf_start_offset': o, 'wf_increment': i}, {}, {}, None, False, None)
+            ctx.obligations += 1
+            try:
+                ttc = chc.time_track()
+            except Exception as e:
+                ctx.fail('time-track-exception', exc=type(e).__name__, n=n, offset=o, increment=i)
+            if len(ttc) != n or (n > 0 and ttc[0] != o) or (n > 1 and abs(ttc[-1] - (o + (n - 1) * i)) > 1e-9 * max(1.0, abs(o + (n - 1) * i))):
+                ctx.fail('time-track-witness', n=n, offset=o, increment=i, got=[float(v) for v in ttc][:5])
+            ctx.discharged += 1
         off, inc = z3.Real('offset'), z3.Real('increment')
         ch = TdmsChannel(ObjectPath('g', 'c'), None, None, n,
                          {'wf_start_offset': SymReal(off), 'wf_increment': SymReal(inc)}, {}, {}, None, False, None)
@@ -503,5 +517,16 @@ def replay(art):
             return dict(sig=signature(dict(task=task, what='scalar-array-differ')), scalar=str(a), array=str(b))
         return None
     if kind == 'timetrack':
-        return dict(sig=signature(dict(task=task, what=art.get('what', 'time-track'))), note='symbolic-only obligation', inputs=inp)
+        from nptdms.tdms import TdmsChannel
+        from nptdms.common import ObjectPath
+        n = task['n']
+        for (o, i) in [(0.0, 0.1), (1.0, 0.1), (0.25, 0.001), (-3.5, 2.0), (0.0, 0.0), (1e9, 1e-6), (0.1, 0.7)]:
+            chc = TdmsChannel(ObjectPath('g', 'c'), None, None, n, {'wf_start_offset': o, 'wf_increment': i}, {}, {}, None, False, None)
+            try:
+                tt = chc.time_track()
+            except Exception as e:
+                return dict(sig=signature(dict(task=task, what='time-track-exception')), n=n, offset=o, increment=i, exception=repr(e)[:100])
+            if len(tt) != n or (n > 0 and tt[0] != o) or (n > 1 and abs(tt[-1] - (o + (n - 1) * i)) > 1e-9 * max(1.0, abs(o + (n - 1) * i))):
+                return dict(sig=signature(dict(task=task, what='time-track-witness')), n=n, offset=o, increment=i, got=[float(v) for v in tt][:5])
+        return None
     return None
